@@ -529,6 +529,16 @@ func (e *Engine) simpleSpec(x ast.Expr, env map[string]Value) (res *Term) {
 			if id, ok := y.Fun.(*ast.Ident); ok && len(y.Args) == 2 && id.Name == "implies" {
 				return Implies(val(y.Args[0]).(*Term), val(y.Args[1]).(*Term))
 			}
+			if id, ok := y.Fun.(*ast.Ident); ok && len(y.Args) >= 2 && id.Name == "uf" {
+				// same term as the spec builtin uf(name, scalar args...)
+				lit := y.Args[0].(*ast.BasicLit)
+				nm, _ := strconv.Unquote(lit.Value)
+				var leaves []*Term
+				for _, a := range y.Args[1:] {
+					leaves = append(leaves, val(a).(*Term))
+				}
+				return App("uf:"+nm, SStr, leaves...)
+			}
 		case *ast.UnaryExpr:
 			if y.Op == token.NOT {
 				return Not(val(y.X).(*Term))
